@@ -248,6 +248,9 @@ impl Interpreter {
             OpCodes::OP_AND => {
                 let a = state.stack.pop_bytes()?;
                 let b = state.stack.pop_bytes()?;
+                if a.len() != b.len() {
+                    return Err(InterpreterError::InvalidStackOperation("Bitwise operands must be of the same length"));
+                }
 
                 let and_array = b.iter().zip(a.iter()).map(|(&x1, &x2)| x1 & x2).collect();
 
@@ -256,6 +259,9 @@ impl Interpreter {
             OpCodes::OP_OR => {
                 let a = state.stack.pop_bytes()?;
                 let b = state.stack.pop_bytes()?;
+                if a.len() != b.len() {
+                    return Err(InterpreterError::InvalidStackOperation("Bitwise operands must be of the same length"));
+                }
 
                 let or_array = b.iter().zip(a.iter()).map(|(&x1, &x2)| x1 | x2).collect();
 
@@ -264,6 +270,9 @@ impl Interpreter {
             OpCodes::OP_XOR => {
                 let a = state.stack.pop_bytes()?;
                 let b = state.stack.pop_bytes()?;
+                if a.len() != b.len() {
+                    return Err(InterpreterError::InvalidStackOperation("Bitwise operands must be of the same length"));
+                }
 
                 let xor_array = b.iter().zip(a.iter()).map(|(&x1, &x2)| x1 ^ x2).collect();
 
